@@ -29,8 +29,8 @@ theorem idxFilter_mem0 {α} (p : α → Bool) (l : List α) (i : Nat) (h : i ∈
   obtain ⟨_, a, ha, hp⟩ := idxFilter_mem p l 0 i h
   exact ⟨a, by simpa using ha, hp⟩
 
-theorem onlineAux_some (c : Nat) : ∀ (l : List Conn) (n j : Nat), onlineAux c l n = some j →
-    n ≤ j ∧ l[j - n]? = some ⟨.auth, c⟩ := by
+theorem onlineAux_some (nd c : Nat) : ∀ (l : List Conn) (n j : Nat), onlineAux nd c l n = some j →
+    n ≤ j ∧ ∃ x, l[j - n]? = some x ∧ x.kind = .auth ∧ x.cid = c := by
   intro l
   induction l with
   | nil => intro n j h; simp [onlineAux] at h
@@ -40,33 +40,36 @@ theorem onlineAux_some (c : Nat) : ∀ (l : List Conn) (n j : Nat), onlineAux c 
     split at h
     · rename_i k hk
       cases h
-      obtain ⟨hle, hx⟩ := ih (n + 1) j hk
-      refine ⟨by omega, ?_⟩
+      obtain ⟨hle, y, hx, hy⟩ := ih (n + 1) j hk
+      refine ⟨by omega, y, ?_, hy⟩
       have : j - n = (j - (n + 1)) + 1 := by omega
       rw [this]; simpa using hx
     · split at h
       · rename_i hc
         cases h
         simp only [Bool.and_eq_true, beq_iff_eq] at hc
-        refine ⟨Nat.le_refl _, ?_⟩
-        cases x with
-        | mk k cid => simp only at hc; simp [hc.1, hc.2]
+        exact ⟨Nat.le_refl _, x, by simp, hc.1.1, hc.1.2⟩
       · cases h
 
 /-- the connection `GetByClientID` returns is authenticated as that very client -/
-theorem online_some (w : World) (t : Int) (tc : Nat) (h : online w t = some tc) :
-    0 < t ∧ w.conns[tc]? = some ⟨.auth, t.toNat⟩ := by
+theorem online_some (w : World) (nd : Nat) (t : Int) (tc : Nat) (h : online w nd t = some tc) :
+    0 < t ∧ ∃ x, w.conns[tc]? = some x ∧ x.kind = .auth ∧ x.cid = t.toNat := by
   unfold online at h
   split at h
   · cases h
   · rename_i hpos
-    obtain ⟨_, hx⟩ := onlineAux_some t.toNat w.conns 0 tc h
-    exact ⟨by omega, by simpa using hx⟩
+    obtain ⟨_, x, hx, hk⟩ := onlineAux_some nd t.toNat w.conns 0 tc h
+    exact ⟨by omega, x, by simpa using hx, hk⟩
 
-theorem online_client (w : World) (t : Int) (tc : Nat) (h : online w t = some tc) :
+theorem online_client (w : World) (nd : Nat) (t : Int) (tc : Nat) (h : online w nd t = some tc) :
     connClient w tc = t.toNat ∧ t.toNat ≠ 0 := by
-  obtain ⟨hpos, hc⟩ := online_some w t tc h
-  refine ⟨by simp [connClient, ident, hc], by omega⟩
+  obtain ⟨hpos, x, hc, hk, hcid⟩ := online_some w nd t tc h
+  refine ⟨?_, by omega⟩
+  cases x with
+  | mk k cid node =>
+    simp only at hk hcid
+    subst hk; subst hcid
+    simp [connClient, ident, hc]
 
 theorem getRef_some {α} (xs : List α) (r : Int) (i : Nat) (a : α) (h : getRef xs r = some (i, a)) :
     xs[i]? = some a ∧ r = Int.ofNat i := by
@@ -139,6 +142,18 @@ theorem clientMaps_party (w : World) (id : Nat) : ∀ o ∈ (clientMaps w id).ma
   obtain ⟨m, hm, hp⟩ := idxFilter_mem0 _ _ _ hi
   exact partyOf_map w id i m hm hp
 
+theorem dlv_open_ok (w : World) (f i tc : Nat) (m : Mapping) (nd : Nat) (hmi : w.maps[i]? = some m)
+    (hid : ident w f ≠ 0) (hl : ident w f = m.listen) (htc : online w nd (Int.ofNat m.target) = some tc) :
+    dlvAllowed w (ident w f) f ⟨tc, c11.cmd.TunnelOpenRequestCmd, none⟩ = true := by
+  obtain ⟨hcl, hne⟩ := online_client w _ _ tc htc
+  have hcl' : connClient w tc = m.target := by simpa using hcl
+  simp only [dlvAllowed, Bool.or_eq_true, beq_iff_eq, Bool.and_eq_true, bne_iff_ne, ne_eq, if_true,
+    List.any_eq_true]
+  right
+  refine ⟨⟨hid, ?_⟩, ⟨m, List.mem_of_getElem? hmi, ?_⟩, trivial⟩
+  · rw [hcl']; simpa using hne
+  · simp [hl, hcl']
+
 theorem h_socks5 (w : World) (f : Nat) (c : Cmd) :
     holdsRun w f c true (execH .repaired .socks5 w f c) = true := by
   simp only [execH]
@@ -155,10 +170,7 @@ theorem h_socks5 (w : World) (f : Nat) (c : Cmd) :
           Decidable.not_not] at hchk
         obtain ⟨hid, hl⟩ := hchk
         split
-        · exact holdsRun_err ..
         · rename_i tc htc
-          obtain ⟨hcl, hne⟩ := online_client w _ tc htc
-          have hcl' : connClient w tc = m.target := by simpa using hcl
           apply holdsRun_intro
           · intro o ho
             simp only at ho
@@ -171,14 +183,20 @@ theorem h_socks5 (w : World) (f : Nat) (c : Cmd) :
           · intro d hd
             simp only [List.mem_singleton] at hd
             subst hd
-            simp only [dlvAllowed, Bool.or_eq_true, beq_iff_eq, Bool.and_eq_true, bne_iff_ne, ne_eq, if_true,
-              List.any_eq_true]
-            right
-            refine ⟨⟨hid, ?_⟩, ⟨m, List.mem_of_getElem? hmi, ?_⟩, trivial⟩
-            · rw [hcl']; simpa using hne
-            · simp [hl, hcl']
+            exact dlv_open_ok w f i tc m _ hmi hid hl htc
           · intro g hg; simp at hg
           · intro h0; exact absurd h0 hid
+        · split
+          · apply holdsRun_intro
+            · intro o ho; simp at ho
+            · intro x hx; simp at hx
+            · intro d hd
+              simp only [broadcastOpen, List.mem_filterMap, Option.map_eq_some_iff] at hd
+              obtain ⟨n, _, tc, htc, rfl⟩ := hd
+              exact dlv_open_ok w f i tc m n hmi hid hl htc
+            · intro g hg; simp at hg
+            · intro h0; exact absurd h0 hid
+          · exact holdsRun_err ..
 
 theorem h_traffic (w : World) (f : Nat) (c : Cmd) :
     holdsRun w f c true (execH .repaired .traffic w f c) = true := by
@@ -220,7 +238,7 @@ theorem h_dnsReq (w : World) (f : Nat) (c : Cmd) (q : Bool) :
         split
         · exact holdsRun_dnsErr ..
         · rename_i tc htc
-          obtain ⟨hcl, hne⟩ := online_client w _ tc htc
+          obtain ⟨hcl, hne⟩ := online_client w _ _ tc htc
           have hd : dlvAllowed w (ident w f) f ⟨tc, if q then c11.cmd.DNSQuery else c11.cmd.DNSResolve, none⟩ = true := by
             simp only [dlvAllowed, Bool.or_eq_true, beq_iff_eq, Bool.and_eq_true, bne_iff_ne, ne_eq]
             right
@@ -263,7 +281,7 @@ theorem h_sendNotify (w : World) (f : Nat) (c : Cmd) :
         · split
           · exact holdsRun_failResp ..
           · rename_i tc htc
-            obtain ⟨hcl, hne⟩ := online_client w _ tc htc
+            obtain ⟨hcl, hne⟩ := online_client w _ _ tc htc
             apply holdsRun_ok _ _ _ _ _ _ _ hchk
             · intro o ho; simp at ho
             · intro x hx; simp at hx
